@@ -30,7 +30,7 @@ ContentSets ==
         <<<<1, 2, 3>>, <<4>>, <<9, 8, 7, 6>>>>, <<<<7>>, <<7>>, <<7, 7>>>>}
   ELSE {<<<<>>, <<1>>, <<1, 2, 3>>>>, <<<<9, 8, 7, 6>>, <<5, 5, 5, 5, 5>>, <<2>>>>}
 
-Flavors == IF Thorough THEN SfntMagics ELSE {MagicTTF, MagicOTTO}
+Flavors == SfntMagics     \* 0x00010000, 'true', 'OTTO' in both tiers (a WOFF of flavour 'true' is what the instancer's output wraps to)
 
 Perms(S) == {p \in [1 .. Cardinality(S) -> S] : \A i, j \in 1 .. Cardinality(S) : i # j => p[i] # p[j]}
 
